@@ -5,6 +5,7 @@ import FGVerif.Proofs.C07Bridge
 import FGVerif.Proofs.C07Strings
 import FGVerif.Proofs.C07KeyGraph
 import FGVerif.Proofs.C07Embeds
+import FGVerif.Proofs.C07Anti
 #print axioms C07.hasse
 #print axioms C07.permutation_invariant
 #print axioms C07.sub_irrefl
@@ -41,3 +42,13 @@ import FGVerif.Proofs.C07Embeds
 #print axioms C07.strict_of_matcher_exact
 #print axioms C07.gEmb_iff_c03
 #print axioms C07.default_patterns_wf
+#print axioms C07.anti_sub_eq
+#print axioms C07.anti_emb_eq
+#print axioms C07.anti_anti_eq
+#print axioms C07.anti_keys_eq
+#print axioms C07.anti_true_emb
+#print axioms C07.anti_true_anti
+#print axioms C07.anti_veto_effective
+#print axioms C07.hasseHyps_of_hypsOk
+#print axioms C07.anti_hasse
+#print axioms C07.anti_domain_nonempty
